@@ -67,6 +67,33 @@ type summary struct {
 	UnknownFns         []string       `json:"unknown_fns"`
 }
 
+// inputGuards: argument builders register a check for every object they hand to the implementation (it must come back
+// unchanged); prevHeld: the values the previous case rendered (canon), re-rendered after this case and then scribbled over.
+var inputGuards []func() string
+var prevHeld []heldVal
+
+func guardInput(g func() string) { inputGuards = append(inputGuards, g) }
+
+func scribble(v interface{}) {
+	switch x := v.(type) {
+	case map[string]interface{}:
+		for k, e := range x {
+			scribble(e)
+			delete(x, k)
+		}
+		x["\x00scribbled"] = "by-the-caller"
+	case []interface{}:
+		for i, e := range x {
+			scribble(e)
+			x[i] = "\x00scribbled"
+		}
+	case []byte:
+		for i := range x {
+			x[i] = 0xEE
+		}
+	}
+}
+
 func runCase(f Fn, args []string) (res string) {
 	done := make(chan string, 1)
 	go func() {
@@ -75,7 +102,27 @@ func runCase(f Fn, args []string) (res string) {
 				done <- "panic"
 			}
 		}()
-		done <- f(args)
+		inputGuards = inputGuards[:0]
+		heldVals = heldVals[:0]
+		out := f(args)
+		for _, g := range inputGuards {
+			if m := g(); m != "" {
+				out = "MUTATED-INPUT:" + m
+			}
+		}
+		// results handed out by the previous case belong to their caller: this case must not have changed them
+		for _, h := range prevHeld {
+			if canonRaw(h.v) != h.s {
+				out = "SHARED-STATE:a result of the previous case changed while this case ran"
+				break
+			}
+		}
+		// ... and the caller may do with them what it likes: nothing of that may show in later results
+		for _, h := range prevHeld {
+			scribble(h.v)
+		}
+		prevHeld = append(prevHeld[:0], heldVals...)
+		done <- out
 	}()
 	select {
 	case r := <-done:
